@@ -838,6 +838,171 @@ Example proxy_nonvacuous :
   end.
 Proof. vm_compute. repeat split. Qed.
 
+(** ** histories against one pipeline with a memoryCache *)
+Lemma alookup_In {A} : forall k (l : list (string * A)) v, alookup k l = Some v -> In (k, v) l.
+Proof.
+  intros k l v. induction l as [|[k' v'] t IH]; cbn [alookup]; [discriminate|].
+  destruct (String.eqb k k') eqn:E.
+  - intros H. inversion H. apply String.eqb_eq in E. subst. left. reflexivity.
+  - intros H. right. apply IH, H.
+Qed.
+
+Fixpoint run_steps (q : quirks) (f : fns) (c : pcfg) (e : hedit) (s : cache_spec) (st : cache)
+         (l : list (creq * bresp)) : list outcome :=
+  match l with
+  | [] => []
+  | rb :: t => let '(o, st') := step q f c e s st (fst rb) (snd rb) in o :: run_steps q f c e s st' t
+  end.
+
+Section History.
+  Variable f : fns.
+  Hypothesis gz : forall b, f_gunzip f (f_gzip f b) = Some b.
+
+  Definition good_backend (b : bresp) : Prop :=
+    backend_well_framed b /\ label_simple (br_headers b) /\
+    exists content, decode f (br_headers b) (br_body b) = Some content.
+
+  (** a response held by the gateway that is a faithful, well-framed image of one of the
+      backend answers [seen] so far *)
+  Definition resp_ok (seen : list bresp) (r : resp) : Prop :=
+    framed r /\ exists b content, In b seen /\ decode f (br_headers b) (br_body b) = Some content /\
+                                  inv f (br_status b) (br_headers b) content r.
+  Definition cache_ok (seen : list bresp) (st : cache) : Prop :=
+    forall k e, In (k, e) st -> resp_ok seen (resp_of_entry e).
+
+  (** what the client may receive: the gateway's own failure, or - well-framed - the status,
+      end-to-end headers and (adapted) content of one of the backend answers [seen] *)
+  Definition answer_ok (c : pcfg) (seen : list bresp) (w : wresp) : Prop :=
+    (exists code, w = failure code) \/
+    (w_frame_ok w = true /\ (w_cl w = None \/ w_cl w = Some (slen (w_body w))) /\
+     exists b content, In b seen /\ decode f (br_headers b) (br_body b) = Some content /\
+       w_status w = br_status b /\ same_e2e (w_headers w) (br_headers b) /\
+       decode f (w_headers w) (w_body w) = Some (adapted (p_rs c) content)).
+  Definition out_ok (c : pcfg) (seen : list bresp) (o : outcome) : Prop :=
+    match o with Answered w _ => answer_ok c seen w | NoResponse _ => False end.
+
+  Lemma resp_ok_mono : forall seen seen' r, (forall b, In b seen -> In b seen') -> resp_ok seen r -> resp_ok seen' r.
+  Proof. intros seen seen' r H [F [b [ct [I R]]]]. split; [exact F|]. exists b, ct. split; [apply H, I|exact R]. Qed.
+
+  Lemma finish_ok : forall q c seen r, q_adaptor_body_keeps_length q = false ->
+    resp_ok seen r -> answer_ok c seen (finish q f c no_edit r).
+  Proof.
+    intros q c seen r Hq [F [b [ct [I [D Hinv]]]]]. right. unfold finish.
+    assert (F0 : framed (hdr_edit no_edit r)) by exact F.
+    assert (I0 : inv f (br_status b) (br_headers b) ct (hdr_edit no_edit r)).
+    { destruct Hinv as [A B C E]. split; assumption. }
+    pose proof (adaptor_framed f q (p_rs c) _ Hq F0) as F1.
+    pose proof (adaptor_inv f gz q (p_rs c) _ _ _ _ I0) as I1.
+    destruct (write_out_framed _ F1) as [W1 [W2 W3]].
+    set (r' := response_adaptor q f (p_rs c) (hdr_edit no_edit r)) in *.
+    assert (Hs : w_status (write_out r') = rs_status r').
+    { unfold write_out. destruct (rs_cl r'); [destruct (_ <=? _)|]; reflexivity. }
+    assert (Hh : w_headers (write_out r') = rs_headers r').
+    { unfold write_out. destruct (rs_cl r'); [destruct (_ <=? _)|]; reflexivity. }
+    destruct I1 as [J1 J2 J3 J4].
+    split; [exact W1|]. split; [exact W3|]. exists b, ct. rewrite Hs, Hh, W2. repeat split; assumption.
+  Qed.
+
+  Lemma build_not_panicked : forall q c hs r0, q_stream_compress_panics q = false ->
+    build_response q f c hs r0 <> Panicked.
+  Proof.
+    intros q c hs r0 Hq. unfold build_response.
+    destruct (match p_minlen c with Some m => compress q f m hs r0 | None => (r0, false) end) as [r1 cz].
+    destruct (fetch_payload _ _ _ _ _); try discriminate. rewrite Hq, andb_false_r. discriminate.
+  Qed.
+
+  Lemma step_ok : forall q c s st r b o st' seen,
+    q_compress_keeps_length q = false -> q_adaptor_body_keeps_length q = false -> q_stream_compress_panics q = false ->
+    good_backend b -> cache_ok seen st ->
+    step q f c no_edit s st r b = (o, st') ->
+    out_ok c (b :: seen) o /\ cache_ok (b :: seen) st'.
+  Proof.
+    intros q c s st r b o st' seen Q1 Q2 Q4 [Hwf [Hl [ct Hc]]] Hst H.
+    assert (Hmono : cache_ok (b :: seen) st).
+    { intros k e Hin. eapply resp_ok_mono; [|apply (Hst k e Hin)]. intros x Hx. right. exact Hx. }
+    unfold step in H.
+    destruct (f_parse_target f (cq_target r)) as [[path qy]|]; [|inversion H; subst; split; [left; eexists; reflexivity|exact Hmono]].
+    destruct (request_adaptor f (p_ra c) (cq_headers r) (cq_body r)) as [[h body]|];
+      [|inversion H; subst; split; [left; eexists; reflexivity|exact Hmono]].
+    destruct (if loadable s (cq_method r) h then alookup (cache_key (cq_host r) path (cq_method r)) st else None) as [ent|] eqn:El.
+    - inversion H. subst o st'. split; [|exact Hmono].
+      apply finish_ok; [exact Q2|].
+      destruct (loadable s (cq_method r) h); [|discriminate]. apply alookup_In in El. apply (Hmono _ _ El).
+    - destruct (forward q f c r) as [code|br added cloned]; [inversion H; subst; split; [left; eexists; reflexivity|exact Hmono]|].
+      destruct (transport_response f added b) as [r0|] eqn:E0; [|inversion H; subst; split; [left; eexists; reflexivity|exact Hmono]].
+      destruct (build_response q f c cloned r0) as [r1| |] eqn:E1.
+      + assert (R1 : resp_ok (b :: seen) r1).
+        { split.
+          - eapply build_framed; [|exact E1]. eapply transport_pre; eauto.
+          - exists b, ct. split; [left; reflexivity|]. split; [exact Hc|].
+            eapply build_inv; [exact gz|exact Q1| | |exact E1].
+            + eapply transport_inv; eauto.
+            + eapply transport_decl; eauto. }
+        inversion H. subst o st'. split; [apply finish_ok; assumption|].
+        destruct (storable s (cq_method r) h r1); [|exact Hmono].
+        intros k e [Hin|Hin]; [|apply (Hmono k e Hin)].
+        inversion Hin. subst k e. destruct R1 as [F [b' [ct' [I [D Hinv]]]]]. split.
+        * exact F.
+        * exists b', ct'. split; [exact I|]. split; [exact D|]. destruct Hinv as [A B C E]. split; assumption.
+      + inversion H; subst; split; [left; eexists; reflexivity|exact Hmono].
+      + exfalso. exact (build_not_panicked q c cloned r0 Q4 E1).
+  Qed.
+
+  (** every outcome of a history is judged against the backend answers given up to and
+      including its own step *)
+  Fixpoint all_ok (c : pcfg) (seen : list bresp) (l : list (creq * bresp)) (outs : list outcome) : Prop :=
+    match l, outs with
+    | [], [] => True
+    | rb :: l', o :: outs' => out_ok c (snd rb :: seen) o /\ all_ok c (snd rb :: seen) l' outs'
+    | _, _ => False
+    end.
+
+  Theorem history_faithful : forall q c s l,
+    q_compress_keeps_length q = false -> q_adaptor_body_keeps_length q = false -> q_stream_compress_panics q = false ->
+    Forall (fun rb => good_backend (snd rb)) l ->
+    all_ok c [] l (run_steps q f c no_edit s [] l).
+  Proof.
+    intros q c s l Q1 Q2 Q4 Hl.
+    assert (G : forall l st seen, Forall (fun rb => good_backend (snd rb)) l -> cache_ok seen st ->
+                all_ok c seen l (run_steps q f c no_edit s st l)).
+    { clear l Hl. induction l as [|rb t IH]; intros st seen Hf Hst; cbn [run_steps all_ok]; [exact I|].
+      inversion Hf as [|x y Hg Ht]. subst.
+      destruct (step q f c no_edit s st (fst rb) (snd rb)) as [o st'] eqn:E.
+      destruct (step_ok _ _ _ _ _ _ _ _ _ Q1 Q2 Q4 Hg Hst E) as [Ho Hc']. cbn [all_ok].
+      split; [exact Ho|apply IH; assumption]. }
+    apply G; [exact Hl|]. intros k e [].
+  Qed.
+
+  (** a hit hands out the stored copy and leaves the cache as it is *)
+  Theorem cache_hit_immutable : forall q c e s st r b path qy h body ent,
+    f_parse_target f (cq_target r) = Some (path, qy) ->
+    request_adaptor f (p_ra c) (cq_headers r) (cq_body r) = Some (h, body) ->
+    loadable s (cq_method r) h = true ->
+    alookup (cache_key (cq_host r) path (cq_method r)) st = Some ent ->
+    step q f c e s st r b = (Answered (finish q f c e (resp_of_entry ent)) None, st).
+  Proof. intros. unfold step. rewrite H, H0, H1, H2. reflexivity. Qed.
+End History.
+
+(** non-vacuity: miss, hit, hit on one resource with a compressing ResponseAdaptor *)
+Example history_nonvacuous :
+  let c := {| p_cstream := false; p_sstream := false; p_server_host := "backend:80"; p_host_is_name := true;
+              p_keep_host := false; p_minlen := None; p_ra := no_adapt;
+              p_rs := {| a_on := true; a_body := ""; a_compress := true; a_decompress := false |} |} in
+  let s := {| mc_on := true; mc_codes := [200]; mc_methods := ["GET"]; mc_max := 100 |} in
+  let r := {| cq_method := "GET"; cq_target := "/x"; cq_host := "front"; cq_headers := []; cq_body := "" |} in
+  let b2 := {| br_status := 200; br_headers := []; br_enc := EncCL 5; br_body := "other" |} in
+  good_backend toy_fns resp5 /\
+  map (fun o => match o with
+                | Answered w br => (w_status w, w_body w, w_cl w, match br with Some _ => true | None => false end)
+                | NoResponse _ => (0, "", None, false) end)
+      (run_steps ideal toy_fns c no_edit s [] [(r, resp5); (r, b2); (r, b2)])
+  = [(200, toy_gzip "hello", Some 7, true); (200, toy_gzip "hello", Some 7, false); (200, toy_gzip "hello", Some 7, false)].
+Proof.
+  cbv zeta. split.
+  - split; [intros d H; inversion H; reflexivity|]. split; [left; reflexivity|]. exists "hello". reflexivity.
+  - vm_compute. reflexivity.
+Qed.
+
 (** *** statements as registered in props/C03.v *)
 Lemma hop_table_complete_all :
   (forall n, In n ["Connection"; "Keep-Alive"; "Proxy-Connection"; "Proxy-Authenticate"; "Proxy-Authorization";
